@@ -214,8 +214,9 @@ PREDICATES = {
     "typed_literal_body_mentions_builtin_namespace": lambda p: _is_lit(p) and p["obj"]["suffix"] == "dt" and _or(
         [_has(p["obj"]["body"], x) for x in ("http://www.w3.org/2001/XMLSchema#", "http://www.w3.org/1999/02/22-rdf-syntax-ns#",
                                                "http://dbpedia.org/datatype/", "http://www.opengis.net/ont/geosparql#")]),
-    "no_blank_before_final_dot_after_suffixed_literal_or_bnode": lambda p: p["tail"] in ("dot", "tab_dot") and (
-        p["okind"] == "bnode" or (_is_lit(p) and p["obj"]["suffix"] in ("lang", "dt"))),
+    # a plain literal whose lexical form contains '^^' is scanned like a typed one (its end is searched as the next ' '), hence the third disjunct
+    "no_blank_before_final_dot_after_suffixed_literal_or_bnode": lambda p: p["tail"] in ("dot", "tab_dot") and _or([
+        p["okind"] == "bnode", _is_lit(p) and p["obj"]["suffix"] in ("lang", "dt"), _is_lit(p) and _has(p["obj"]["body"], "^^")]),
     "comment_contains_marker": lambda p: _is_lit(p) and "comment" in p and _or(
         [_has(p["comment"], x) for x in ("@", '"', "^^")]),
     "body_escaped_backslash_then_quote": lambda p: _is_lit(p) and _has(p["obj"]["body"], '\\\\\\"'),
